@@ -153,6 +153,7 @@ const (
 	StratWalk              // random walk over statement-level yields
 	StratHotPark           // park before writes to possibly shared state, resume right after a peer touched it
 	StratPCT               // probabilistic concurrency testing priorities
+	StratSyncPark          // park only before statements that call sync / sync/atomic methods: the code's own shared words
 	NumStrategies
 	// StratTarget is never drawn: it is the directed schedule used to build a replayable witness
 	// for a race report.  Tasks run one after the other; the Nth arrival at one of the TargetPark
@@ -207,6 +208,8 @@ type Config struct {
 	PCTLen    int   // pct: estimated run length in yields, change points are drawn from [0,PCTLen)
 	MaxYields int64 // whole-run cap; beyond it the run stops preempting and is marked Discard
 
+	SyncResumeAny bool // sync-park: resume after any sync call of the peer, not only one on the same object
+
 	TargetPark []int32
 	TargetPeer []int32
 	TargetNth  int
@@ -258,6 +261,7 @@ type Stats struct {
 	HotSwitches     int64
 	Parks           int64
 	MidUpdateParks  int64
+	SyncParks       int64
 	DirectedResumes int64
 	ParkTimeouts    int64
 	Discard         bool
@@ -421,6 +425,25 @@ func (s *sim) drawPark() {
 	}
 }
 
+// drawSyncPark: the next park happens at the v-th statement from now that calls a sync or
+// sync/atomic method (0 on the tape: never again).  There are few such statements in a run, so the
+// range is small.
+//
+//go:norace
+func (s *sim) drawSyncPark() {
+	v := Choose(13)
+	if v == 0 {
+		s.parkIn = -1
+	} else {
+		s.parkIn = int64(v)
+	}
+}
+
+//go:norace
+func noGroups(site int32) bool {
+	return site < 0 || int(site) >= len(SiteGroups) || len(SiteGroups[site]) == 0
+}
+
 //go:norace
 func groupsIntersect(a, b int32) bool {
 	if a < 0 || b < 0 || int(a) >= len(SiteGroups) || int(b) >= len(SiteGroups) {
@@ -452,6 +475,11 @@ func (s *sim) decide(t *task, site int32) {
 			hit = inSites(t.prevSite, s.cfg.TargetPeer) || inSites(t.prevSite, s.cfg.TargetPark)
 		} else {
 			hit = groupsIntersect(t.prevSite, p.parkSite)
+			if !hit && s.cfg.Strategy == StratSyncPark && (s.cfg.SyncResumeAny || noGroups(p.parkSite)) {
+				// resume after the peer's next sync / sync/atomic call, whatever it is called on
+				ps := t.prevSite
+				hit = ps >= 0 && int(ps) < len(SiteFlags) && SiteFlags[ps]&FlagSync != 0
+			}
 		}
 		if hit {
 			s.parkedT = nil
@@ -534,6 +562,29 @@ func (s *sim) decide(t *task, site int32) {
 			s.preempt(t, site)
 			s.drawGap()
 		}
+	case StratSyncPark:
+		if site < 0 {
+			s.natural(t, site)
+			return
+		}
+		if s.parkedT == nil && int(site) < len(SiteFlags) && SiteFlags[site]&FlagSync != 0 {
+			s.parkIn--
+			if s.parkIn == 0 {
+				s.drawSyncPark()
+				var buf [maxTasks]*task
+				if n := s.others(t, &buf); n > 0 {
+					next := buf[Choose(n)]
+					t.parked = true
+					t.parkSite = site
+					t.parkedAt = s.total
+					s.parkedT = t
+					s.st.Parks++
+					s.st.SyncParks++
+					s.switchTo(t, next, site)
+					return
+				}
+			}
+		}
 	case StratPCT:
 		for i := 0; i < s.pctN; i++ {
 			if s.pctAt[i] == s.total {
@@ -584,6 +635,9 @@ func (s *sim) preempt(t *task, site int32) {
 	s.switchTo(t, buf[k-1], site)
 }
 
+// SyncSiteHits counts executed statements that call a sync or sync/atomic method.
+var SyncSiteHits int64
+
 // Yield is inserted before every statement of the code under test.
 //
 //go:norace
@@ -596,6 +650,9 @@ func Yield(site int32) {
 	t.opSteps++
 	t.prevSite = t.curSite
 	t.curSite = site
+	if site >= 0 && int(site) < len(SiteFlags) && SiteFlags[site]&FlagSync != 0 {
+		SyncSiteHits++
+	}
 	if t.opCap > 0 && t.opSteps > t.opCap && !t.capHit {
 		t.capHit = true
 		panic(CapExceeded{t.opSteps})
@@ -862,6 +919,9 @@ func RunTasks(cfg Config, fns []func(), watchdog time.Duration) (Stats, bool) {
 	}
 	if cfg.Strategy == StratHotPark {
 		s.drawPark()
+	}
+	if cfg.Strategy == StratSyncPark {
+		s.drawSyncPark()
 	}
 	cur = first
 	first.wake <- struct{}{}
